@@ -56,6 +56,8 @@ def static_truth(test):
                 return (l.value is None) == isinstance(op, ast.Is)
             if isinstance(l, (ast.List, ast.Tuple, ast.Dict, ast.BinOp)):
                 return isinstance(op, ast.IsNot)
+            if isinstance(l, ast.Call) and dotted(l.func) in ("int", "float", "len", "str", "bool", "list", "tuple", "abs", "np.array", "np.asarray"):
+                return isinstance(op, ast.IsNot)
     if isinstance(test, ast.Call) and dotted(test.func) == "isinstance" and len(test.args) == 2 and dotted(test.args[1]) == "object":
         return True
     return None
@@ -488,10 +490,15 @@ def closure_funcs(prog, f, _seen=None):
 
 
 def walk_closure(prog, f):
-    """(func, node) for every AST node of f and of the helpers inlined into it"""
+    """(func, node) for every AST node of f and of the helpers inlined into it; each node is attributed to the innermost function"""
     for g in closure_funcs(prog, f):
-        for n in ast.walk(g.node):
+        stack = list(ast.iter_child_nodes(g.node))
+        while stack:
+            n = stack.pop()
+            if isinstance(n, (ast.FunctionDef, ast.AsyncFunctionDef)):
+                continue        # nested defs are visited as functions of their own when they are in the closure
             yield g, n
+            stack.extend(ast.iter_child_nodes(n))
 
 
 # --------------------------------------------------------------------------- semantic guard queries (robust to restructured conditions)
@@ -639,3 +646,12 @@ def simplify_extrema(term, ge):
             elif any((x == q_ and y == p_) for x, y in ge) or nonneg(q_ - p_, facts):
                 mapping[a] = q_ if a[0] == "max" else p_
     return term.subst(mapping) if mapping else term
+
+
+def store_status_key(st):
+    """(base, key) of a store to <base>.status[key] using the substituted subscript (loop variables over literal tuples are resolved)"""
+    t = st.target
+    if isinstance(t, ast.Subscript) and isinstance(t.value, ast.Attribute) and t.value.attr == "status":
+        k = const_str(st.sub) if st.sub is not None else const_str(t.slice)
+        return (dotted(t.value.value), k)
+    return None
